@@ -129,6 +129,9 @@ def modify_logits_for_top_p_filtering(logits, top_p):
 
     # Remove tokens with cumulative top_p above the threshold (token with 0 are kept)
     sorted_indices_to_remove = cumulative_probs <= (1 - top_p)
+    # Always keep the most likely token (last in ascending order): for top_p below the float
+    # resolution `1 - top_p` rounds to 1.0 and every token would be removed (all -inf, NaN probs)
+    sorted_indices_to_remove[..., -1] = False
 
     # Scatter sorted tensors to original indexing
     indices_to_remove = sorted_indices_to_remove.scatter(
